@@ -44,8 +44,18 @@ type byteReader struct {
 
 func (r *byteReader) ReadByte() (byte, error) {
 	var buff = [1]byte{}
-	_, err := r.Read(buff[:])
-	return buff[0], err
+	for {
+		n, err := r.Read(buff[:])
+		if n > 0 {
+			// a byte may arrive together with an error (e.g. io.EOF): deliver
+			// the byte, the reader reports the error again on the next call
+			return buff[0], nil
+		}
+		if nil != err {
+			return 0, err
+		}
+		// (0, nil) means nothing happened, not a zero byte: read again
+	}
 }
 
 // ToReader wrap message to io.Reader
